@@ -253,7 +253,7 @@ OWN("kb_k1s1_up", KBQ(std::unique_ptr<E>), UPElem, TryPush, Make2<KBQ(std::uniqu
 OWN("kb_k2s2_raw", KBQ(E*), RawElem, TryPush, Make2<KBQ(E*) COMMA 2 COMMA 2>, "kirsch bounded k=2 segments=2, raw pointer");
 
 // nikolaev_bounded_queue
-#define NBQ(T) xenium::nikolaev_bounded_queue<T>
+#define NBQ(T) xenium::nikolaev_bounded_queue<T, xp::pop_retries<1>>
 OWN("nb_c1_up", NBQ(std::unique_ptr<E>), UPElem, TryPush, Make1<NBQ(std::unique_ptr<E>) COMMA 1>, "nikolaev bounded cap=1, unique_ptr");
 OWN("nb_c2_up", NBQ(std::unique_ptr<E>), UPElem, TryPush, Make1<NBQ(std::unique_ptr<E>) COMMA 2>, "nikolaev bounded cap=2, unique_ptr");
 OWN("nb_c2_val", NBQ(V), ValElem, TryPush, Make1<NBQ(V) COMMA 2>, "nikolaev bounded cap=2, movable value");
